@@ -45,3 +45,9 @@
 ; the storage key under which the compaction floor is kept (fmt.Sprintf("%s/compact_key", prefix)): opaque
 (declare-fun is_compact_key ((Array Int (_ BitVec 8)) Int Int) Bool)
 (declare-fun err_is (Iface Iface) Bool)
+; d is the events resource directory under prefix p:  d == p ++ "/events/"
+(define-fun is_events_dir ((d!arr (Array Int (_ BitVec 8))) (d!off Int) (d!len Int) (p!arr (Array Int (_ BitVec 8))) (p!off Int) (p!len Int)) Bool
+  (and (= d!len (+ p!len 8))
+       (forall ((j Int)) (! (=> (and (<= d!off j) (< j (+ d!off p!len))) (= (select d!arr j) (select p!arr (+ p!off (- j d!off))))) :pattern ((select d!arr j))))
+       (= (select d!arr (+ d!off p!len)) #x2f) (= (select d!arr (+ d!off p!len 1)) #x65) (= (select d!arr (+ d!off p!len 2)) #x76) (= (select d!arr (+ d!off p!len 3)) #x65)
+       (= (select d!arr (+ d!off p!len 4)) #x6e) (= (select d!arr (+ d!off p!len 5)) #x74) (= (select d!arr (+ d!off p!len 6)) #x73) (= (select d!arr (+ d!off p!len 7)) #x2f)))
